@@ -234,8 +234,8 @@ theorem rd_item (F : FloatOps α) : (v : Value α) → Savable F v →
     rw [save_map_length] at hf
     match fuel, hf with
     | f + 1, hf =>
-      have ih := rd_pairs F ps hs.map_inv.1 hs.map_inv.2.1 f 41 (d :: rest) more .nil (by omega)
-        (by simpa [Pairs.keys] using hs.map_inv.2.2)
+      have ih := rd_pairs F ps hs.map_inv.1 hs.map_inv.2 f 41 (d :: rest) more .nil (by omega)
+        (by intro a ha; simp [Pairs.keys] at ha)
       rw [save_map_append]
       cases ps with
       | nil =>
@@ -270,10 +270,10 @@ theorem rd_vals (F : FloatOps α) : (xs : Vals α) → SavableVals F xs →
       refine ⟨.cons w ys, ?_, by rw [eraseVals]; exact EquivVals.cons _ _ _ _ ew es⟩
       rw [saveElems_cons_append, Vals.length, tblVals, List.append_assoc,
         rdElems_step F f _ _ w _ _ hw r.length acc g, hys, Vals.snoc_app]
-theorem rd_pairs (F : FloatOps α) : (ps : Pairs α) → SavablePairs F ps → (∀ k ∈ ps.keys, isReal k = false) →
+theorem rd_pairs (F : FloatOps α) : (ps : Pairs α) → SavablePairs F ps → KeysDistinct F ps.keys →
     ∀ (fuel : Nat) (c : Byte) (rest : List Byte) (more : List Nat) (acc : Pairs α),
       (savePairs F ps).length + 1 ≤ fuel →
-      ((acc.keys.filterMap keyTag) ++ (ps.keys.filterMap keyTag)).Nodup →
+      (∀ a ∈ acc.keys, ∀ k ∈ ps.keys, ∀ k', Equiv F (erase k) k' → sameKey F a k' = false) →
       ∃ qs, rdMap F fuel (savePairs F ps ++ 93 :: c :: rest) (tblPairs ps ++ more) acc =
           .ok ⟨acc.app qs, some rest, more⟩ ∧ EquivPairs F (erasePairs ps) qs
   | .nil, _, _ => by
@@ -282,9 +282,14 @@ theorem rd_pairs (F : FloatOps α) : (ps : Pairs α) → SavablePairs F ps → (
     | f + 1, hf =>
       refine ⟨.nil, ?_, by rw [erasePairs]; exact EquivPairs.nil⟩
       simp [savePairs, tblPairs, rdMap_done, Pairs.app_nil]
-  | .cons k v r, hs, hreal => by
-    intro fuel c rest more acc hf hnd
+  | .cons k v r, hs, hkd => by
+    intro fuel c rest more acc hf hinv
     rw [savePairs_cons_length] at hf
+    have hkd' : (∀ y ∈ r.keys, ∀ x' y', Equiv F (erase k) x' → Equiv F (erase y) y' → sameKey F x' y' = false) ∧
+        KeysDistinct F r.keys := by
+      have : (Pairs.cons k v r).keys = k :: r.keys := by simp [Pairs.keys]
+      rw [this] at hkd
+      exact List.pairwise_cons.1 hkd
     match fuel, hf with
     | f + 1, hf =>
       obtain ⟨k', hk', ek⟩ := rd_item F k hs.cons_inv.1 f 58
@@ -292,30 +297,18 @@ theorem rd_pairs (F : FloatOps α) : (ps : Pairs α) → SavablePairs F ps → (
         (Or.inr rfl) (by omega)
       obtain ⟨w', hw', ew⟩ := rd_item F v hs.cons_inv.2.1 f 44 (savePairs F r ++ 93 :: c :: rest)
         (tblPairs r ++ more) (Or.inl rfl) (by omega)
-      have hkt : keyTag k' = keyTag k := by rw [← ek.keyTag_eq, keyTag_erase]
-      have hkr : isReal k' = false := by
-        rw [← ek.isReal_eq, isReal_erase]; exact hreal k (by simp [Pairs.keys])
-      have hfresh : ∀ a ∈ acc.keys, sameKey F a k' = false := by
-        intro a ha
-        cases hsk : sameKey F a k' with
-        | false => rfl
-        | true =>
-          obtain ⟨t, hta, htk⟩ := sameKey_tag F a k' hsk hkr
-          rw [hkt] at htk
-          have h1 : t ∈ acc.keys.filterMap keyTag := List.mem_filterMap.2 ⟨a, ha, hta⟩
-          have h2 : t ∈ (Pairs.cons k v r).keys.filterMap keyTag :=
-            List.mem_filterMap.2 ⟨k, by simp [Pairs.keys], htk⟩
-          exact absurd rfl ((List.nodup_append.1 hnd).2.2 t h1 t h2)
-      have hnd' : (((acc.snoc k' w').keys.filterMap keyTag) ++ (r.keys.filterMap keyTag)).Nodup := by
-        have e : ((acc.snoc k' w').keys.filterMap keyTag) ++ (r.keys.filterMap keyTag) =
-            (acc.keys.filterMap keyTag) ++ ((Pairs.cons k v r).keys.filterMap keyTag) := by
-          rw [Pairs.keys_snoc, List.filterMap_append, List.append_assoc]
-          congr 1
-          simp only [Pairs.keys, List.filterMap_cons, hkt, List.filterMap_nil]
-          cases keyTag k <;> rfl
-        rw [e]; exact hnd
-      obtain ⟨qs, hqs, es⟩ := rd_pairs F r hs.cons_inv.2.2
-        (fun x hx => hreal x (by simp [Pairs.keys, hx])) f c rest more (acc.snoc k' w') (by omega) hnd'
+      -- the duplicate test of restore_mapping finds no earlier key equal to this one
+      have hfresh : ∀ a ∈ acc.keys, sameKey F a k' = false :=
+        fun a ha => hinv a ha k (by simp [Pairs.keys]) k' ek
+      have hinv' : ∀ a ∈ (acc.snoc k' w').keys, ∀ y ∈ r.keys, ∀ y', Equiv F (erase y) y' → sameKey F a y' = false := by
+        intro a ha y hy y' ey
+        rw [Pairs.keys_snoc] at ha
+        rcases List.mem_append.1 ha with ha | ha
+        · exact hinv a ha y (by simp [Pairs.keys, hy]) y' ey
+        · simp only [List.mem_singleton] at ha
+          subst ha
+          exact hkd'.1 y hy a y' ek ey
+      obtain ⟨qs, hqs, es⟩ := rd_pairs F r hs.cons_inv.2.2 hkd'.2 f c rest more (acc.snoc k' w') (by omega) hinv'
       refine ⟨.cons k' w' qs, ?_, by rw [erasePairs]; exact EquivPairs.cons _ _ _ _ _ _ ek ew es⟩
       rw [savePairs_cons_append, tblPairs, List.append_assoc, List.append_assoc,
         rdMap_step F f _ _ k' _ _ hk' w' _ _ hw' acc, insertKV_snoc F acc k' w' hfresh, hqs,
@@ -372,8 +365,8 @@ theorem restoreSvalue_save (F : FloatOps α) (mb : MbLen) (v : Value α) (hs : S
   | map ps =>
     have hp := pre_pairs F mb ps hs.map_inv.1 ((savePairs F ps).length + 4) 1 true [] 0 [] (by omega) (Or.inl rfl)
       (saveSize_map_some hz).2
-    have ih := rd_pairs F ps hs.map_inv.1 hs.map_inv.2.1 ((savePairs F ps).length + 4) 41 [] [] .nil
-      (by omega) (by simpa [Pairs.keys] using hs.map_inv.2.2)
+    have ih := rd_pairs F ps hs.map_inv.1 hs.map_inv.2 ((savePairs F ps).length + 4) 41 [] [] .nil
+      (by omega) (by intro a ha; simp [Pairs.keys] at ha)
     simp only [List.nil_append, Nat.zero_add, List.append_nil] at hp ih
     cases ps with
     | nil =>
@@ -471,5 +464,84 @@ theorem deepExample_withinDepth : saveVariable rtF deepExample ≠ SaveOut.tooDe
 example (mb : MbLen) : ∃ v', restoreVariable rtF mb (save rtF deepExample) = RvOut.value v' ∧
     Equiv rtF (erase deepExample) v' :=
   roundtrip rtF mb deepExample deepExample_savable deepExample_floatsOK deepExample_withinDepth
+
+/-! ## float keys
+
+`roundtrip` (domain `savable`) excludes float keys; the induction itself (`roundtrip_ind`) only needs `KeysDistinct`: the
+keys of a mapping stay different keys.  With `keysDistinct_of_tagsF` that holds for float keys whose saved texts are
+pairwise different (finding K5 is the case where they are NOT: the entries collapse), given the `==` contract
+`EqPrintOK` on the floats that print like those keys. -/
+
+/-- two "floats" with different texts: `true` prints "1.5", `false` prints "2.5"; `==` is equality -/
+def rtF2 : FloatOps Bool :=
+  ⟨fun b => if b then [49, 46, 53] else [50, 46, 53], fun n => n == 1, fun _ b => b, fun a _ => a, fun a _ => a,
+   fun a => a, fun _ => true, fun a b => a == b, fun _ => false, fun _ => false, fun _ => false⟩
+
+theorem rtF2_floatOK (b : Bool) : FloatOK rtF2 b := by
+  have hsave : saveReal rtF2 b = [if b then 49 else 50, 46, 53] := by cases b <;> rfl
+  refine ⟨⟨if b then 49 else 50, [46, 53], hsave, by cases b <;> rfl⟩, ?_, ?_⟩
+  · intro x hx
+    rw [hsave] at hx
+    simp at hx
+    rcases hx with rfl | rfl | rfl
+    · cases b <;> decide
+    · decide
+    · decide
+  · intro c s he tail ht
+    rw [hsave] at he
+    injection he with h1 h2
+    subst h1; subst h2
+    refine ⟨b, ?_, rfl⟩
+    have hspan : ([53] ++ tail).span isDigit = ([53], tail) :=
+      span_digits [53] tail (by intro b hb; simp at hb; subst hb; rfl) (TailOK.span ht)
+    have hspan0 : ([46, 53] ++ tail).span isDigit = ([], [46, 53] ++ tail) :=
+      span_digits [] _ (by simp) (Or.inr ⟨46, 53 :: tail, rfl, rfl⟩)
+    unfold parseNumeric
+    simp only [List.cons_append, List.nil_append] at hspan hspan0 ⊢
+    have h53 : isDigit 53 = true := rfl
+    cases b
+    · simp only [show ¬ ((50 : Nat) = 45) by decide, Bool.false_eq_true, ↓reduceIte, hspan0, hspan, h53]
+      rcases ht with rfl | ⟨d, r, rfl, hd | hd⟩
+      · rfl
+      · subst hd; rfl
+      · subst hd; rfl
+    · simp only [show ¬ ((49 : Nat) = 45) by decide, ↓reduceIte, hspan0, hspan, h53]
+      rcases ht with rfl | ⟨d, r, rfl, hd | hd⟩
+      · rfl
+      · subst hd; rfl
+      · subst hd; rfl
+
+/-- a mapping with two float keys (texts "1.5", "2.5"), an integer key and a string key -/
+def floatKeyExample : Value Bool :=
+  .map (.cons (.real true) (.int 1) (.cons (.real false) (.str [97]) (.cons (.int 7) (.real true)
+    (.cons (.str [107]) (.arr (.cons (.real false) .nil)) .nil))))
+
+theorem floatKeyExample_savable : Savable rtF2 floatKeyExample := by
+  refine Savable.map _ ?_ ?_
+  · refine SavablePairs.cons _ _ _ (Savable.real _ (rtF2_floatOK _)) (Savable.int _ (by decide) (by decide)) ?_
+    refine SavablePairs.cons _ _ _ (Savable.real _ (rtF2_floatOK _)) (Savable.str _ (by intro b hb; simp at hb; omega)) ?_
+    refine SavablePairs.cons _ _ _ (Savable.int _ (by decide) (by decide)) (Savable.real _ (rtF2_floatOK _)) ?_
+    refine SavablePairs.cons _ _ _ (Savable.str _ (by intro b hb; simp at hb; omega)) ?_ SavablePairs.nil
+    exact Savable.arr _ (SavableVals.cons _ _ (Savable.real _ (rtF2_floatOK _)) SavableVals.nil) (by decide)
+  · apply keysDistinct_of_tagsF
+    · decide
+    · intro a b _ _ a' b' ha hb heq
+      have : a' = b' := by simpa [rtF2] using heq
+      subst this
+      rw [← ha, ← hb]
+
+theorem floatKeyExample_withinDepth : saveVariable rtF2 floatKeyExample ≠ SaveOut.tooDeep := by
+  have h : (saveSize rtF2 0 floatKeyExample).isSome = true := by
+    simp [floatKeyExample, saveSize, sizeElems, sizePairs, maxDepth, NV.Gen.C16.maxSaveSvalueDepth]
+  unfold saveVariable
+  cases hs : saveSize rtF2 0 floatKeyExample with
+  | none => simp [hs] at h
+  | some n => simp only []; split <;> simp
+
+/-- the round trip of a mapping WITH float keys -/
+example (mb : MbLen) : ∃ v', restoreVariable rtF2 mb (save rtF2 floatKeyExample) = RvOut.value v' ∧
+    Equiv rtF2 (erase floatKeyExample) v' := by
+  refine roundtrip_ind rtF2 mb floatKeyExample floatKeyExample_savable ?_
+  simp [floatKeyExample, saveSize, sizeElems, sizePairs, maxDepth, NV.Gen.C16.maxSaveSvalueDepth]
 
 end NV.C16
